@@ -248,13 +248,14 @@ func VH_Conservation() {
 	} else {
 		first := vChoose("first", 3) // 0: SYSCALL first, 1: another record first, 2: no SYSCALL at all
 		sysData := map[string]string{"syscall": []string{"open", "connect", "execve", "zzz"}[vChoose("sys", 4)], "result": val(), "ses": val(), "auid": val(), "uid": val(), "items": "2", "pid": val(), "exe": val(), "comm": val(), "subj_role": val()}
+		var head []vRec
 		if first == 1 {
-			recs = append(recs, vRec{typ: auparse.AUDIT_AVC, data: map[string]string{"seresult": val(), "scontext": val()}})
+			head = append(head, vRec{typ: auparse.AUDIT_AVC, data: map[string]string{"seresult": val(), "scontext": val()}})
 		}
 		if first != 2 {
-			recs = append(recs, vRec{typ: auparse.AUDIT_SYSCALL, data: sysData})
+			head = append(head, vRec{typ: auparse.AUDIT_SYSCALL, data: sysData})
 		} else {
-			recs = append(recs, vRec{typ: auparse.AUDIT_CWD, data: map[string]string{"cwd": val()}})
+			head = append(head, vRec{typ: auparse.AUDIT_CWD, data: map[string]string{"cwd": val()}})
 		}
 		// further records, any subset and order (bounded)
 		n := vChoose("extra", vParam("maxextra", 2)+1)
@@ -291,6 +292,20 @@ func VH_Conservation() {
 			}
 			recs = append(recs, r)
 		}
+		// the SYSCALL record may come anywhere among the other records; a leading AVC stays first
+		pos := 0
+		if vParam("anyorder", 1) != 0 {
+			pos = vChoose("syscallpos", len(recs)+1)
+		}
+		var all []vRec
+		if len(head) == 2 {
+			all = append(all, head[0])
+			head = head[1:]
+		}
+		all = append(all, recs[:pos]...)
+		all = append(all, head...)
+		all = append(all, recs[pos:]...)
+		recs = all
 	}
 	var msgs []*auparse.AuditMessage
 	for _, r := range recs {
@@ -322,7 +337,25 @@ func VH_Conservation() {
 	vAssert(ev.Sequence == 9 && ev.Timestamp.Unix() == 200 && ev.Type == recs[0].typ, "C09/event-identity")
 	lostAny := false
 	lostExecveExtra := false
-	for _, r := range recs {
+	build := func(skip int) []*auparse.AuditMessage {
+		var out []*auparse.AuditMessage
+		for i, r := range recs {
+			if i == skip {
+				continue
+			}
+			if r.bad {
+				out = append(out, auparse.VNewMessage(r.typ, 9, 200, nil, nil, errors.New("broken record")))
+				continue
+			}
+			cp := map[string]string{}
+			for k, v := range r.data {
+				cp[k] = v
+			}
+			out = append(out, auparse.VNewMessage(r.typ, 9, 200, cp, nil, nil))
+		}
+		return out
+	}
+	for ri, r := range recs {
 		if r.bad {
 			vAssert(len(ev.Warnings) > 0, "C09/broken-record-dropped-without-warning")
 			continue
@@ -332,6 +365,7 @@ func VH_Conservation() {
 			ks = append(ks, k)
 		}
 		sort.Strings(ks)
+		lostHere := false
 		for _, k := range ks {
 			if r.typ == auparse.AUDIT_SYSCALL && k == "items" {
 				continue // dropped on purpose
@@ -341,7 +375,17 @@ func VH_Conservation() {
 					lostExecveExtra = true
 				} else {
 					lostAny = true
+					lostHere = true
 				}
+			}
+		}
+		// the warning that excuses a loss must be attributable to the record: the same group without
+		// this record must produce fewer warnings (not applied to the first record and to SYSCALL,
+		// whose removal changes the event's identity)
+		if lostHere && ri > 0 && r.typ != auparse.AUDIT_SYSCALL && len(recs) > 2 {
+			ev0, err0 := CoalesceMessages(build(ri))
+			if err0 == nil && ev0 != nil {
+				vAssert(len(ev.Warnings) > len(ev0.Warnings), "C09/field-lost-and-no-warning-is-about-that-record")
 			}
 		}
 	}
@@ -447,6 +491,23 @@ func VH_Repeatable() {
 	if msgs == nil {
 		return
 	}
+	// an EOE record may sit anywhere in the group (or nowhere)
+	if eoe := vChoose("eoe", 4); eoe > 0 {
+		m, _ := auparse.Parse(auparse.AUDIT_EOE, "audit(1490137971.011:77): ")
+		if m != nil {
+			at := len(msgs) // 1: last
+			if eoe == 2 {
+				at = len(msgs) / 2
+			} else if eoe == 3 {
+				at = 1
+			}
+			if at > len(msgs) {
+				at = len(msgs)
+			}
+			msgs = append(msgs[:at:at], append([]*auparse.AuditMessage{m}, msgs[at:]...)...)
+		}
+	}
+	slice0 := append([]*auparse.AuditMessage(nil), msgs...)
 	type snap struct {
 		d   map[string]string
 		t   []string
@@ -465,6 +526,10 @@ func VH_Repeatable() {
 		if !vSameMap(d, before[i].d) || len(t) != len(before[i].t) || bad != before[i].bad {
 			intact = false
 		}
+	}
+	// the caller's slice itself holds the same messages in the same places
+	for i := range slice0 {
+		vAssert(msgs[i] == slice0[i], "C15/callers-slice-rearranged-by-coalescing")
 	}
 	e2, err2 := CoalesceMessages(msgs)
 	same := (err1 == nil) == (err2 == nil) && vEventDigest(e2) == d1
